@@ -60,6 +60,9 @@ def verify_target(args):
         from .pvals import Unsupported
         from . import smt
         pm, ft, models, contracts = _load(prop_mod)
+        if isinstance(key, tuple) and key and key[0] == "byname":
+            # target of a sub-check: resolved here, so that its contract modules are imported in this worker only
+            key = [k for k, c in contracts.items() if type(c).__name__ == key[1] and not c.assumed][0]
         con = contracts[key]
         out["name"] = con.name()
         out["qual"] = con.qual
@@ -131,8 +134,11 @@ def run_property(prop_mod, tier="quick", seed=0):
         r = seed % len(keys)
         keys = keys[r:] + keys[:r]
     results = []
-    with cf.ProcessPoolExecutor(max_workers=min(16, max(1, len(keys)))) as ex:
+    with cf.ProcessPoolExecutor(max_workers=min(16, max(1, len(keys) + sum(len(n) for _, n in getattr(pm, 'SUBCHECKS', []))))) as ex:
         futs = [ex.submit(verify_target, (prop_mod, k, timeout_ms, 6)) for k in keys]
+        # sub-checks: (props-like module, [contract class names]) verified under their own contract registry
+        for sub_mod, names in getattr(pm, "SUBCHECKS", []):
+            futs += [ex.submit(verify_target, (sub_mod, ("byname", n), timeout_ms, 6)) for n in names]
         for f in futs:
             try:
                 results.append(f.result(timeout=3600))
